@@ -242,7 +242,8 @@ class Session:
                 if cls == "lite":
                     klass.__init__(obj, simradio.BusioSpi(w, rid), simradio.CsPin(), SimPin(w, rid, ce=True))
                 else:
-                    klass.__init__(obj, SimSpiDev(w, rid), SimPin(), SimPin(w, rid, ce=True))
+                    csn = SimPin()
+                    klass.__init__(obj, SimSpiDev(w, rid, csn), csn, SimPin(w, rid, ce=True))
                 res = "ok"
             except SimTimeout:
                 res = "exc=DIVERGE"
